@@ -571,7 +571,19 @@ func main() {
 	}
 	// three TLC processes at a time (4 workers each)
 	var tw sync.WaitGroup
-	for _, grp := range [][]func(){{rangeJob}, {freeJob, streamJob}, {xcheckJob, appendJob, writeJob, sectorJob}} {
+	var tmu sync.Mutex
+	tlcSecs := map[string]float64{}
+	timed := func(name string, f func()) func() {
+		return func() {
+			t0 := time.Now()
+			f()
+			tmu.Lock()
+			tlcSecs[name] = time.Since(t0).Seconds()
+			tmu.Unlock()
+		}
+	}
+	for _, grp := range [][]func(){{timed("range", rangeJob), timed("stream_model", streamJob)}, {timed("free", freeJob)},
+		{timed("xcheck", xcheckJob), timed("append", appendJob), timed("write", writeJob), timed("sector", sectorJob)}} {
 		tw.Add(1)
 		go func(grp []func()) {
 			defer tw.Done()
@@ -581,6 +593,7 @@ func main() {
 		}(grp)
 	}
 	tw.Wait()
+	c.Cov("tlc_seconds_per_job", tlcSecs)
 	// order of TLC's printing depends on worker scheduling: fix the order of the replay
 	sort.Slice(exp.Range, func(i, j int) bool {
 		a, b := exp.Range[i], exp.Range[j]
@@ -755,6 +768,39 @@ func main() {
 				}
 			}
 			c.Cov("selftest_expected_side_mutation", map[string]any{"mutated_case": fmt.Sprintf("n=%d [%d,%d): proof hashes 0 and 1 exchanged", mut.N, mut.S, mut.E), "detected": found})
+		}
+	}
+	// the same for the streaming family: one expected verdict is flipped (an altered end index declared
+	// acceptable); the replay on the real verifier must contradict it
+	{
+		var mut *StreamCase
+		for i := range exp.Stream {
+			x := exp.Stream[i]
+			if !x.Accept && x.Pf == 0 && x.S2 == x.S && x.E2 > x.E && x.Len == 64*(x.E-x.S) && x.E2 > LPS-8 {
+				x.Accept = true
+				mut = &x
+				break
+			}
+		}
+		if mut == nil {
+			c.Infra("selftest: no altered-end stream case among the last leaves of a sector")
+		} else {
+			cr := &childRun{label: "selftest-stream"}
+			runChild(c, cr, &Expect{Seed: c.Seed, Tier: c.Tier, Stream: []StreamCase{*mut}}, 2*time.Minute)
+			found := false
+			if cr.err != nil {
+				c.Infra("selftest: %v", cr.err)
+			} else {
+				for _, v := range cr.res.Viol {
+					if v.Key == "rangeverifier-rejects-altered-end" {
+						found = true
+					}
+				}
+				if !found {
+					c.Infra("selftest: a flipped expected verdict of the streaming verifier ([%d,%d) claimed as [%d,%d)) was not noticed", mut.S, mut.E, mut.S2, mut.E2)
+				}
+			}
+			c.Cov("selftest_stream_expected_verdict_flipped", map[string]any{"case": fmt.Sprintf("honest [%d,%d) claimed as [%d,%d)", mut.S, mut.E, mut.S2, mut.E2), "detected": found})
 		}
 	}
 	c.Finish()
